@@ -80,7 +80,11 @@ StoReps == {[feat |-> "chan", kind |-> "plain", where |-> "local", shape |-> "sc
             [feat |-> "chan", kind |-> "urgent", where |-> "local", shape |-> "array", inst |-> "full"],
             [feat |-> "chan", kind |-> "plain", where |-> "global", shape |-> "scalar", inst |-> "yes"]}
 ASSUME SymReps \subseteq Models /\ StoReps \subseteq Models
+(* the document-level features (a flag of the document, no placement): each with every placed representative - a short cut taken on the flags
+   alone must not skip the traversal that finds the placed one *)
+DocReps == {[feat |-> "dynamic"], [feat |-> "chanprio"], [feat |-> "procprio"]}
 Pairs == {[a |-> x, b |-> y, first |-> o] : x \in SymReps, y \in StoReps, o \in {"a", "b"}}
+         \cup {[a |-> x, b |-> y, first |-> o] : x \in SymReps \cup StoReps, y \in DocReps, o \in {"a", "b"}}
 PairSem(p) == [sym |-> SemSymbolic(p.a) /\ SemSymbolic(p.b), sto |-> SemStochastic(p.a) /\ SemStochastic(p.b), con |-> SemConcrete(p.a) /\ SemConcrete(p.b)]
 PairImpl(p) == [sym |-> ImplSymbolic(p.a) /\ ImplSymbolic(p.b), sto |-> ImplStochastic(p.a) /\ ImplStochastic(p.b), con |-> ImplConcrete(p.a) /\ ImplConcrete(p.b)]
 PairsSound == \A p \in Pairs : (PairImpl(p).sym => PairSem(p).sym) /\ (PairImpl(p).sto => PairSem(p).sto) /\ (PairImpl(p).con => PairSem(p).con)
